@@ -16,6 +16,8 @@ def corr(rng, tier):
 
 def search(rng, tier, broken, cases):
     S = SS.search_c04(rng, 36 if tier == "quick" and not broken else 360)
+    import dtypesearch
+    dtypesearch.search_dtype(rng, 12 if tier == "quick" and not broken else 60, ['steps'], pid="C04", S=S)   # same numbers typed int64 vs float64
     return S.violations, S.stats()
 
 
